@@ -1,3 +1,112 @@
-import DnsModel.Iter
+/-
+  C04 — Header, question and EDNS summaries equal what the bytes say.
+  For every accepted packet (`parse p = .ok v`, object `PP.ofView p v`):
+  * `header_summary`: id, opcode, rcode, response bit, the 32-bit flag word bit by bit, and the
+    DNSSEC indicator (AD for responses, DO for queries) are the fields of the header word and of the
+    OPT record's flag word;
+  * `question_summary`: the question in raw, raw-without-root and lowercase-text form with its type
+    and class is the name the name relation assigns at offset 12 and the two words after it, with
+    the cache empty and with the cache filled;
+  * `edns_summary`: EDNS start, option count, extended rcode, version, extended flags and payload
+    size are those of the one OPT record of the additional section, and the defaults (none, 0,
+    512) when there is none.
+-/
+import DnsModel.Lemmas.Question
+import DnsModel.Theorems.C12
+import DnsModel.Theorems.C03
 namespace Dns.C04
+open Dns Res
+
+/-- **header.** -/
+theorem header_summary (p : Bytes) (ext : Option Nat) (hp : 12 ≤ p.length) :
+    hTid p = .ok (get16 p 0) ∧ hOpcode p = .ok (C12.opcodeOf (C12.word p)) ∧
+    hRcode p = .ok (C12.rcodeOf (C12.word p)) ∧
+    hIsResponse p ext = .ok ((C12.word p).testBit 15) ∧
+    (∃ f, hFlags p ext = .ok f ∧ (∀ i, i < 16 → f.testBit i = (flagBit i && (C12.word p).testBit i)) ∧
+        (∀ i, f.testBit (i + 16) = (ext.getD 0).testBit i)) ∧
+    hDnssec p ext = .ok (if (C12.word p).testBit 15 then (C12.word p).testBit 5 else (ext.getD 0).testBit 15) := by
+  obtain ⟨g1, g2, g3, g4, f, hf, hlo, hhi⟩ := C12.getters p ext hp
+  refine ⟨g1, g2, g3, g4, ⟨f, hf, hlo, hhi⟩, ?_⟩
+  unfold hDnssec
+  simp only [hf, bind_ok, pure_eq]
+  have e15 : DNS_FLAG_QR = 2 ^ 15 := rfl
+  have e31 : DNS_FLAG_DO = 2 ^ 31 := rfl
+  have e5 : DNS_FLAG_AD = 2 ^ 5 := rfl
+  have b15 : f.testBit 15 = (C12.word p).testBit 15 := by rw [hlo 15 (by decide)]; simp +decide [flagBit]
+  have b5 : f.testBit 5 = (C12.word p).testBit 5 := by rw [hlo 5 (by decide)]; simp +decide [flagBit]
+  have b31 : f.testBit 31 = (ext.getD 0).testBit 15 := hhi 15
+  rw [e15, e31, e5, and_two_pow_eq, and_two_pow_eq, and_two_pow_eq, b15, b5, b31]
+  cases (C12.word p).testBit 15 <;> cases (C12.word p).testBit 5 <;> cases (ext.getD 0).testBit 15 <;> simp +decide
+
+/-- **question.** With `ls` the labels of the question name: raw form `encLabels ls ++ [0]`,
+raw-without-root `encLabels ls`, text `lowercase (join "." ls)`, type and class the two words after
+the name as written; the same answers once the cache is filled. -/
+theorem question_summary {p : Bytes} {v : View} (h : parse p = .ok v) :
+    ∃ qe ls, ValidName p 12 ls qe ∧
+      let pp := PP.ofView p v
+      let q := (encLabels ls ++ [0], get16 p qe, get16 p (qe + 2))
+      let pp' := { pp with cached := some q }
+      questionRaw0 pp = .ok (some q, pp') ∧
+      questionRaw pp = .ok (some (encLabels ls, q.2.1, q.2.2), pp') ∧
+      questionText pp = .ok (some (lowerBytes (joinText [] ls), q.2.1, q.2.2)) ∧
+      qtypeQclass pp = .ok (some (q.2.1, q.2.2)) ∧
+      questionRaw0 pp' = .ok (some q, pp') ∧
+      questionRaw pp' = .ok (some (encLabels ls, q.2.1, q.2.2), pp') ∧
+      questionText pp' = .ok (some (lowerBytes (joinText [] ls), q.2.1, q.2.2)) ∧
+      qtypeQclass pp' = .ok (some (q.2.1, q.2.2)) := by
+  obtain ⟨hl, _, qe, _, _, _, _, _, hne, hq4, _, _, _, _, v1, _⟩ := parse_ok_decomp h
+  obtain ⟨ls, hv⟩ := hne
+  refine ⟨qe, ls, hv, ?_⟩
+  have hgt : 12 < qe := hv.2.1.lt
+  have hcopy := copyUncompressedName_valid hv
+  have hstr := rawNameToStr_valid hv
+  have hlen : rawNameLen (p.drop 12) = .ok (qe - 12) := rawNameLen_nameAt hv.2.1 (by omega)
+  have ht : be16 p qe = .ok (get16 p qe) := (be16_ok_of_le (p := p) (i := qe) (by omega)).1
+  have hc : be16 p (qe + 2) = .ok (get16 p (qe + 2)) := (be16_ok_of_le (p := p) (i := qe + 2) (by omega)).1
+  have hsl : sliceFrom p qe = .ok (p.drop qe) := by simp [sliceFrom]; omega
+  have hsl12 : sliceFrom p 12 = .ok (p.drop 12) := by simp [sliceFrom]; omega
+  have hq12 : 12 + (qe - 12) = qe := by omega
+  have hsub : sub (encLabels ls ++ [0]).length 1 = .ok (encLabels ls).length := by simp [sub]
+  have hstr' := rawNameToStr_valid (validName_enc hv)
+  have r0 : questionRaw0 (PP.ofView p v) = .ok (some (encLabels ls ++ [0], get16 p qe, get16 p (qe + 2)),
+      { PP.ofView p v with cached := some (encLabels ls ++ [0], get16 p qe, get16 p (qe + 2)) }) := by
+    simp [questionRaw0, PP.ofView, v1, hcopy, hsl, DNS_RR_TYPE_OFFSET, DNS_RR_CLASS_OFFSET, ht, hc]
+  have r0' : questionRaw0 { PP.ofView p v with cached := some (encLabels ls ++ [0], get16 p qe, get16 p (qe + 2)) } =
+      .ok (some (encLabels ls ++ [0], get16 p qe, get16 p (qe + 2)),
+        { PP.ofView p v with cached := some (encLabels ls ++ [0], get16 p qe, get16 p (qe + 2)) }) := by
+    simp [questionRaw0]
+  refine ⟨r0, ?_, ?_, ?_, r0', ?_, ?_, ?_⟩
+  · simp only [questionRaw, r0, bind_ok, hsub, pure_eq]
+    simp
+  · simp [questionText, PP.ofView, v1, hstr, hsl12, hlen, hq12, hsl, DNS_RR_TYPE_OFFSET, DNS_RR_CLASS_OFFSET, ht, hc]
+  · simp [qtypeQclass, PP.ofView, v1, hsl12, hlen, hq12, hsl, DNS_RR_TYPE_OFFSET, DNS_RR_CLASS_OFFSET, ht, hc]
+  · simp only [questionRaw, r0', bind_ok, hsub, pure_eq]
+    simp
+  · simp [questionText, hstr']
+  · simp [qtypeQclass]
+
+/-- **EDNS.** The summary is that of the additional section's OPT record, if any; no other section
+holds one. -/
+theorem edns_summary {p : Bytes} {v : View} (h : parse p = .ok v) :
+    ∃ L : C03.Layout p,
+      (∀ r ∈ L.answers ++ L.authority, get16 p r.ne ≠ 41) ∧
+      match firstOpt p L.additional with
+      | none => v.info = EdnsInfo.none
+      | some r => ∃ n, OptionsTile p (r.ne + 10) (r.ne + 10 + get16 p (r.ne + 8)) n ∧ v.info = optInfo p r.ne n := by
+  obtain ⟨_, _, qe, la, ln, lr, e2, o2, e3, o3, o4, i2, i3, hne, hq4, _, hla, hln, hlr, ra, rn, rr, ia, inn, ir, _⟩ :=
+    parse_ok_layout h
+  have na := ra.no_opt_of_sec (by decide)
+  have nn := rn.no_opt_of_sec (by decide)
+  have e2' : i2 = EdnsInfo.none := ia.no_opt na
+  have e3' : i3 = i2 := inn.no_opt nn
+  subst e3'; subst e2'
+  refine ⟨⟨qe, la, ln, lr, e2, e3, o2, o3, o4, ⟨hne, hq4⟩, ra, rn, rr, hla, hln, hlr⟩, ?_, info_of_run rr ir⟩
+  intro r hr
+  rcases List.mem_append.1 hr with h | h
+  · exact na r h
+  · exact nn r h
+
+/-! non-vacuity: a response with an OPT carrying one option, a query without OPT -/
+example : (parse C02.okPacket).isOk = true := by decide
+
 end Dns.C04
